@@ -162,7 +162,7 @@ func runC05(c *Ctx) {
 				bad = fmt.Sprintf("%s at %s (%s)", n, p.Pos(i.Pos()), why)
 			}
 			if n == "io.Copy" || n == "io.CopyBuffer" {
-				dst := cc.Args[0]
+				dst := PArgs(cc)[0]
 				for _, r := range Roots(dst) {
 					if mi, ok := r.(*ssa.MakeInterface); ok {
 						r = mi.X
